@@ -114,7 +114,7 @@ def poison_panic(res):
         return False
     evs = [e for e in res.events if e.kind in ('call', 'panic')]
     names = [e.name for e in evs]
-    return len(names) >= 2 and re.search(r'RwLock::(read|write)$', names[-2]) is not None and 'unwrap' in names[-1]
+    return len(names) >= 2 and re.search(r'RwLock::(read|write)$|Mutex::lock$', names[-2]) is not None and ('unwrap' in names[-1] or 'expect' in names[-1])
 
 
 # ----------------------------------------------------------------------------- std RwLock / tokio timeout contracts (property-level models)
